@@ -129,6 +129,11 @@ for _lit in ("'ab'", "'abcdef'", "b'ab'", 'None', 'True', 'False', '0.0', '1.0',
 # programs that reproduce the recorded known findings (genuine defects of the pinned tree that were not repaired): tagged so that they
 # are reported as KNOWN-FINDING and any OTHER failure is still a violation
 KNOWN_PROGRAMS = {
+    "A='module level A'\ndef outer():\n    def helper():\n        def identity[A](x: A) -> A:\n            return x\n        return identity(A)\n    return helper()\nprint(outer())": 'type-parameter-bound-in-the-enclosing-scope',
+    "class Resource:\n    def __del__(self):\n        print('resource released')\ndef consume(resource):\n    print('using', type(resource).__name__)\n    print('still using', type(resource).__name__)\n    del resource\n    print('after del')\nconsume(Resource())": 'parameter-alias-keeps-the-argument-alive',
+    "class Settings:\n    def from_environment(variable_name, default_value=None):\n        return (variable_name, default_value)\n    DEBUG = from_environment(variable_name='APP_DEBUG')\nprint(Settings.DEBUG)": 'old-style-staticmethod-first-parameter',
+    "def area(r):\n    from re import A\n    x = r * r\n    return x * A + x\nprint(area(2))": 'tie-rename-steals-an-import-name',
+    "def lookup(x):\n    if x:\n        return x['abc']\n    return x.get('abc')\nprint(lookup({}))": 'hoisted-assignment-indentation-not-priced',
     "class Factory:\n    def create(config_name, extra=1):\n        return config_name, extra\n    create=staticmethod(create)\nprint(Factory.create(config_name='x'))": 'old-style-staticmethod-first-parameter',
     "def pick(flag):\n    if flag:\n        return 'abcd'\n    return 'abcd'\nprint(pick(1))": 'hoisted-literal-after-keyword',
     "def noisy():\n    print('annotation evaluated')\n    return int\ndef annotated(x: noisy()) -> noisy():\n    return x\nprint(annotated(1))": 'annotation-with-side-effect-removed',
@@ -165,7 +170,16 @@ PROGRAMS += [
     "__all__=['public_function']\nMESSAGE='a module level text that repeats'\ndef public_function():\n    return 'a module level text that repeats','a module level text that repeats','a module level text that repeats'\nprint(public_function(),MESSAGE)",
     "def masks(flags):\n    return flags&(1<<17),flags|(1<<18),flags^(255<<16),flags&(1<<19)\nprint(masks(3))",
 ]
+# repaired defects reported by the bug-hunting sub-agents: a regression is an ordinary violation
+PROGRAMS += [
+    "x='global'\ndef f():\n    x='local'\n    class C:\n        print(x)\n        if 0: del x\nf()",
+    "eval = eval\ndef compute(expression_text, threshold_value=10):\n    doubled_threshold = threshold_value * 2\n    return eval(expression_text)\nprint(compute('doubled_threshold + 1'))",
+    "__all__ = ('public_api',)\ndef public_api():\n    return 1\ndef helper_function():\n    return public_api()\nprint(helper_function(), __all__)",
+    "import sys\nif sys:\n    __all__ = ['public_api']\ndef public_api():\n    return 1\nprint(public_api(), __all__)",
+    "def make_base():\n    class Base:\n        def __init__(self): self.__token = 'base'\n        def base_token(self): return self.__token\n    return Base\ndef make_derived(base):\n    class Derived(base):\n        def __init__(self): super().__init__(); self.__token = 'derived'\n        def derived_token(self): return self.__token\n    return Derived\nd = make_derived(make_base())()\nprint(d.base_token(), d.derived_token())",
+]
 PROGRAMS += list(KNOWN_PROGRAMS)
+PROGRAMS.append("def f():\n    pass\n    'not a docstring'\n    return 1\nclass K:\n    pass\n    'not a class docstring'\nprint(f.__doc__, K.__doc__)")      # repaired in e235f6e
 # fixed in 7a1a7a4 / f054637 / 3bb1e82 / 8cd404d: a regression is an ordinary violation
 GLOBAL_DECLARATION_TAINT = "def declare():\n    global eval\ndef compute(value):\n    doubled=value*2\n    return eval('doubled+value')\nprint(compute(2))"     # repaired in 8cd404d
 PROGRAMS.append(GLOBAL_DECLARATION_TAINT)
@@ -401,8 +415,8 @@ def size_mechanism(src, kw, growth):
                     rebinds += 1
     if rebinds and growth <= 4 * rebinds:
         return 'param-rebind-before-compound-statement'
-    if src in KNOWN_PROGRAMS and KNOWN_PROGRAMS[src] == 'hoisted-literal-after-keyword':
-        return 'hoisted-literal-after-keyword'
+    if src in KNOWN_PROGRAMS and KNOWN_PROGRAMS[src] in ('hoisted-literal-after-keyword', 'tie-rename-steals-an-import-name', 'hoisted-assignment-indentation-not-priced'):
+        return KNOWN_PROGRAMS[src]
     return 'other'
 
 
@@ -464,7 +478,9 @@ def main(argv):
         tests += [(nm, dict(rename_globals=True, preserve_globals=[nm], preserve_locals=[nm])) for nm in sorted(module_names - set(dir(builtins)))[:2]]
         # names listed in a literal __all__ keep every occurrence when globals are renamed
         exported = []
-        for st in tree.body:
+        for st in ast.walk(tree):           # a literal __all__ list may sit inside an if / try statement of the module
+            if not isinstance(st, (ast.Assign, ast.AugAssign, ast.AnnAssign)):
+                continue
             tg = st.targets[0] if isinstance(st, ast.Assign) else getattr(st, 'target', None)
             if isinstance(tg, ast.Name) and tg.id == '__all__' and isinstance(getattr(st, 'value', None), ast.List):
                 exported += [e.value for e in st.value.elts if isinstance(e, ast.Constant) and isinstance(e.value, str)]
